@@ -293,10 +293,14 @@ func c07Case(r *rep.Run, t *twin, docs []qx.Doc, filters []qx.Filter, orders [][
 			if !full && oi%3 != 0 {
 				continue
 			}
-			for fi, f := range append([]qx.Filter{nil}, filters[3], filters[14], filters[40], filters[75]) {
+			// list conditions with their literals in descending order: an index-backed plan visits the
+			// listed values one after the other, the requested order must still be applied
+			inLists := []qx.Filter{qx.Cond{Field: "a", Op: "_in", Ints: []int64{2, 1, 0}}, qx.Cond{Field: "s", Op: "_in", Strs: []string{"y", "x"}},
+				qx.Cond{Field: "b", Op: "_in", Ints: []int64{2, 0}}}
+			for fi, f := range append(append([]qx.Filter{nil}, filters[3], filters[14], filters[40], filters[75]), inLists...) {
 				farg := ""
 				if f != nil {
-					if !full && fi%2 == 0 {
+					if !full && fi%2 == 0 && fi <= 4 {
 						continue
 					}
 					farg = "filter: " + f.GQL() + ", "
